@@ -158,6 +158,22 @@ fn real_main(args: &[String]) -> i32 {
             println!("inproc {} runs {}..{} ok, {} steps", prop.id(), from, to, steps_total);
             0
         }
+        "finalise" => {
+            let (Some(prop), Some(tier)) = (args.get(2).and_then(|p| Prop::parse(p)), args.get(3)) else { return usage() };
+            let (Some(vf), Some(of)) = (arg_val(args, "--violation"), arg_val(args, "--out")) else { return usage() };
+            let a = runner::RunArgs {
+                prop,
+                tier: tier.clone(),
+                seed: arg_val(args, "--seed").and_then(|v| v.parse().ok()).unwrap_or(1),
+                workers: arg_val(args, "--workers").and_then(|v| v.parse().ok()).unwrap_or(16),
+                out: PathBuf::from("/dev/null"),
+                replay_dir: PathBuf::from(arg_val(args, "--replay-dir").unwrap_or_else(|| "/verif/replays".into())),
+                tmp: PathBuf::from(arg_val(args, "--tmp").unwrap_or_else(|| "/verif/target/tmp".into())),
+                runs_override: arg_val(args, "--runs").and_then(|v| v.parse().ok()),
+                time_limit_s: 0,
+            };
+            runner::on_big_stack(move || runner::finalise_child(&a, &PathBuf::from(vf), &PathBuf::from(of)))
+        }
         "run" => {
             let (Some(prop), Some(tier)) = (args.get(2).and_then(|p| Prop::parse(p)), args.get(3)) else { return usage() };
             let out = PathBuf::from(arg_val(args, "--out").unwrap_or_else(|| "/dev/null".into()));
